@@ -201,6 +201,11 @@ func C08(tier string) int {
 			{"panic-data", "DATA\r\npanic-1\r\n.\r\n", true, "rcpt"},
 			{"panic-bdat", "BDAT 9 LAST\r\npanic-2\r\n", true, "rcpt"},
 			{"panic-bdat-2chunks", "BDAT 9\r\npanic-3\r\nBDAT 0 LAST\r\n", true, "rcpt"},
+			// the backend panics inside Session.Reset: on RSET, on a repeated greeting, behind a delivered message
+			{"panic-reset-rset", "MAIL FROM:<okpanicreset@a.example>\r\nRSET\r\n", true, "greeted-nomail"},
+			{"panic-reset-greeting", "MAIL FROM:<okpanicreset@a.example>\r\n" + hl, true, "greeted-nomail"},
+			{"panic-reset-after-data", "MAIL FROM:<okpanicreset@a.example>\r\nRCPT TO:<ok@b.example>\r\nDATA\r\nhi\r\n.\r\n", true, "greeted-nomail"},
+			{"panic-reset-after-bdat", "MAIL FROM:<okpanicreset@a.example>\r\nRCPT TO:<ok@b.example>\r\nBDAT 3 LAST\r\nhi\n", true, "greeted-nomail"},
 		}
 		for _, p := range prefixes {
 			for _, r := range reasons {
@@ -240,7 +245,7 @@ func C08(tier string) int {
 			}
 		}
 	}
-	run.Rule = fmt.Sprintf("(a) corpus of %d conversations (DATA/BDAT transfers, AUTH, several transactions, errors; SMTP, LMTP, LMTP per-recipient) cut at EVERY byte offset x terminal answer {EOF, timeout, reset} x {one segment, one octet per segment}; (b) %d close-reason cases: connection states {fresh, greeted, authenticated, MAIL, RCPT, mid-BDAT, after a message} x server-initiated close {QUIT, 4th protocol error, over-long line, backend panic in Mail/Rcpt/Data/BDAT delivery} x every suffix and every single element of a pool of %d follow-up commands already buffered behind the closing command x {same segment, next segment, per octet}. All executions run in synctest bubbles: the bubble must drain (no goroutine of the connection left). Distinct by construction; non-trivial = a session exists at the cut / a suffix is buffered. (d) idle-timeout arming: ReadTimeout/WriteTimeout one minute on the virtual clock, a peer that pauses 40 s before every segment of 6 conversations x 3 modes - every wait must be under a freshly armed deadline, the last wait ends in 421; (c) STARTTLS conversations over a real TLS layer: {handshake completes, the client sends non-handshake octets, the client hangs up instead} x 5 plaintext prefixes (none ... mid-BDAT) x 7 continuations x 3 terminal answers, judged per session. Oracle on the backend trace: every session gets exactly one Logout, no callback begins after it, no session is created after the end, no recovered panic unless the backend panicked, output identical to the conversation without the buffered suffix.", len(corpus), len(closeCases), len(pool))
+	run.Rule = fmt.Sprintf("(a) corpus of %d conversations (DATA/BDAT transfers, AUTH, several transactions, errors; SMTP, LMTP, LMTP per-recipient) cut at EVERY byte offset x terminal answer {EOF, timeout, reset} x {one segment, one octet per segment}; (b) %d close-reason cases: connection states {fresh, greeted, authenticated, MAIL, RCPT, mid-BDAT, after a message} x server-initiated close {QUIT, 4th protocol error, over-long line, backend panic in Mail/Rcpt/Data/BDAT delivery/Reset} x every suffix and every single element of a pool of %d follow-up commands already buffered behind the closing command x {same segment, next segment, per octet}. All executions run in synctest bubbles: the bubble must drain (no goroutine of the connection left). Distinct by construction; non-trivial = a session exists at the cut / a suffix is buffered. (d) idle-timeout arming: ReadTimeout/WriteTimeout one minute on the virtual clock, a peer that pauses 40 s before every segment of 6 conversations x 3 modes - every wait must be under a freshly armed deadline, the last wait ends in 421; (c) STARTTLS conversations over a real TLS layer: {handshake completes, the client sends non-handshake octets, the client hangs up instead} x 5 plaintext prefixes (none ... mid-BDAT) x 7 continuations x 3 terminal answers, judged per session. Oracle on the backend trace: every session gets exactly one Logout, no callback begins after it, no session is created after the end, no recovered panic unless the backend panicked, output identical to the conversation without the buffered suffix.", len(corpus), len(closeCases), len(pool))
 	run.Assumptions = []string{"an unterminated fragment that the line reader hands out before it reports EOF counts as input received before the disconnect", "for STARTTLS conversations (two sessions per connection) the oracle is per session: exactly one Logout each, nothing on a session after its own Logout"}
 
 	type job struct{ ci, cut int }
